@@ -102,6 +102,9 @@ def c05(tier):
         {'rc', 'ran', 'row.failed', 'row.gen', 'file'},
         bounds(tier, (4, 3), (5, 4)), sample_n=None if tier == 'thorough' else 150,
         note='failing rule (first build and later version), keep-going and not, repaired in version 2')
+    # a failure that becomes known while a target of the same command is locked by another invocation (no new target may be
+    # started afterwards without --keep-going), and a failing target requested by two invocations at once
+    pairs_part('C05', tier, v, cov, te, only=('pair_lockfail', 'pair_fail') if tier == 'thorough' else ('pair_lockfail',))
     return finish('C05', tier, v, cov, te, wall)
 
 
@@ -393,11 +396,13 @@ ASSUME_MULTI = [
 ]
 
 
-def pairs_part(pid, tier, verdict, cov, te):
+def pairs_part(pid, tier, verdict, cov, te, only=None):
     """two top-level commands in flight in RedoSys (histories with `par` steps): every interleaving of the two invocations in
     TLC, the real pair of commands must end as one of the specification's alternatives"""
     fam_ = programs.pair_family()
-    if tier != 'thorough':
+    if only:
+        fam_ = [p for p in fam_ if p['name'] in only]
+    elif tier != 'thorough':
         fam_ = [p for p in fam_ if p['name'] in ('pair_chain', 'pair_stamp', 'pair_lockfail', 'pair_query')]
     v, cov2, te2, wall2 = syscheck.run_family(
         pid, tier, fam_, ['ParFresh', 'ParFailPropagates', 'ParNoTmpLeft', 'ScriptMutex', 'HoldThroughRecord',
